@@ -13,7 +13,7 @@ structure Box where
   ny : Nat
   nz : Nat
   /-- how an out-of-range root-box index is brought into range: `false` = `(i+N)%N` / `i%N` (particle.c:191-198,
-      tree.c:86-92 as pinned), `true` = clamp to `[0,N-1]` (fixes/F18.diff); rv/c15.py reads the rule off the source -/
+      tree.c:86-92 as pinned), `true` = clamp to `[0,N-1]` (fixes/C15-N1-rootbox-face-reinsert.diff); rv/c15.py reads the rule off the source -/
   clamp : Bool := false
 
 def Box.bx (b : Box) : Float := b.rs * Float.ofNat b.nx
